@@ -23,10 +23,10 @@ mut("rev-d1-eof-canceled", "C02", "internal/client/stream.go", "\t\tif done, err
 mut("rev-d3-reset-eof", "C03", "internal/client/stream.go", "\tif rpc.GetReset_() != nil {\n\t\t// The peer has torn the stream down; that is never a clean end.\n\t\treturn true, status.Error(codes.Unavailable, \"stream reset by peer\")\n\t}\n", "", "reset read as trailer")
 mut("rev-d4-reset-overtake", "C03", "server.go", "\tselect {\n\tcase h.writeChan <- reset:\n\t\treturn nil\n\tcase <-h.ctx.Done():\n\t\treturn context.Cause(h.ctx)\n\t}\n", "\treturn h.rw.Write(h.ctx, reset)\n", "reset written directly")
 mut("rev-d4-reset-overtake-c06", "C06", "server.go", "\tselect {\n\tcase h.writeChan <- reset:\n\t\treturn nil\n\tcase <-h.ctx.Done():\n\t\treturn context.Cause(h.ctx)\n\t}\n", "\treturn h.rw.Write(h.ctx, reset)\n", "reset written directly (wire monitor)")
-mut("rev-d2-ok-status", "C03", "internal/client/multiplexer.go", "if resp.Status != nil && resp.Status.Code != int32(codes.OK) {", "if resp.Status != nil {", "explicit OK status is an error again", suite=True)
-mut("rev-d5-timeout-wrap", "C08", "server.go", "\tif val > uint64(math.MaxInt64/int64(unit)) {\n\t\treturn time.Duration(math.MaxInt64), true\n\t}\n", "", "no saturation")
+mut("rev-d2-ok-status", "C03", "internal/client/multiplexer.go", "if resp.Status != nil && resp.Status.Code != int32(codes.OK) {", "if resp.Status != nil && resp.Status.Code != int32(codes.OK)-1000 {", "explicit OK status is an error again", suite=True)
+mut("rev-d5-timeout-wrap", "C08", "server.go", "\tif val > uint64(math.MaxInt64/int64(unit)) {\n", "\tif false && val > uint64(math.MaxInt64/int64(unit)) {\n", "no saturation")
 mut("rev-d6-register-window", "C09", "internal/client/multiplexer.go", "\tif rm.rErr != nil {\n\t\treturn nil, rm.rErr\n\t}\n\n\tgone := make", "\tgone := make", "registration does not check the read error")
-mut("rev-d7-unary-ctx", "C10", "server.go", "\tdefer context.AfterFunc(ctx, unaryHandlerCtxCancel)()\n", "", "unary handler ctx not tied to the connection")
+mut("rev-d7-unary-ctx", "C10", "server.go", "\tdefer unaryHandlerCtxCancel()\n\tdefer context.AfterFunc(ctx, unaryHandlerCtxCancel)()\n", "\t_ = unaryHandlerCtxCancel\n", "unary handler ctx not tied to the connection")
 mut("rev-d7-worker-leak", "C10", "server.go", "\t\t\t\t\tselect {\n\t\t\t\t\tcase h.writeChan <- resp:\n\t\t\t\t\tcase <-ctx.Done():\n\t\t\t\t\t\t// the writer has gone; nobody is left to take the reply\n\t\t\t\t\t}\n", "\t\t\t\t\th.writeChan <- resp\n", "worker hand-off blocks forever")
 mut("rev-d10-unary-badmd", "C12", "server.go", "\t\tlog.Warn().Err(err).Msg(\"Server: failed to get context from headers\")\n", "\t\tlog.Panic().Err(err).Msg(\"Server: failed to get context from headers\")\n", "panic on undecodable metadata")
 mut("rev-d11-trailer-panic", "C13", "internal/client/stream.go", "\t\tlog.Error().Err(err).Msg(\"Trailer err\")\n\t\treturn nil\n", "\t\tlog.Panic().Err(err).Msg(\"Trailer err\")\n", "Trailer panics")
